@@ -33,7 +33,7 @@ TIE_NAME = ("C20 correspondence (operation sequences on the real RBACManager vs 
 SEC = 10 ** 9
 T0 = 1_700_000_000 * SEC
 
-KINDS = ["KCreateOrg", "KUpdateOrg", "KDeleteOrg", "KCreateTeam", "KUpdateTeam", "KDeleteTeam", "KCreateRole", "KUpdateRole",
+KINDS = ["KCreateOrg", "KUpdateOrg", "KDeleteOrg", "KRealignOrg", "KCreateTeam", "KUpdateTeam", "KDeleteTeam", "KCreateRole", "KUpdateRole",
          "KDeleteRole", "KCreateMP", "KDeleteMP", "KAddMember", "KRemoveMember", "KCreateToken", "KDeleteToken"]
 DIRECT_METHODS = {"KCreateOrg": "CreateOrganization", "KUpdateOrg": "UpdateOrganization", "KDeleteOrg": "DeleteOrganization",
                   "KCreateTeam": "CreateTeam", "KUpdateTeam": "UpdateTeam", "KDeleteTeam": "DeleteTeam",
@@ -113,6 +113,17 @@ def translate_params():
         if ("*RBACManager", name) not in have:
             raise vlib.TieBroken("apply method RBACManager.%s not found" % name)
         cluster[k] = success_path_inval(func_body(src_c, "RBACManager", name, rel_c), "RBACManager.%s" % name)
+    # the upgrade-seed REALIGN branch of ApplyCreateOrganization (name collision under another id: the
+    # local organization is deleted - cascading - and re-inserted): what it invalidates before returning
+    body = func_body(src_c, "RBACManager", "ApplyCreateOrganization", rel_c)
+    m = re.search(r'UNIQUE constraint failed"\) \{', body)
+    if not m or "tx.Commit()" not in body[m.end():]:
+        raise vlib.TieBroken("realign branch (UNIQUE constraint failed ... tx.Commit()) of ApplyCreateOrganization not found")
+    tail = body[m.end():]
+    tail = tail[tail.index("tx.Commit()"):]
+    tail = tail[:tail.index("return nil")]
+    cluster["KRealignOrg"] = "IAll" if re.search(r"^\s*rm\.InvalidateAllCache\(\)\s*$", tail, re.M) else "INone"
+    direct["KRealignOrg"] = "IAll"      # no such path in direct mode: CreateOrganization rejects a duplicate name
     for mode, tbl in (("direct", direct), ("cluster", cluster)):
         for k, (rel, name) in TOKEN_METHODS[mode].items():
             f = have.get(("*AuthManager", name))
@@ -330,7 +341,7 @@ def gen_sequence(rng, mode, enabled, ttl, allow_bad):
         else:
             k = rng.choice(["update_team", "update_team", "delete_team", "create_role", "update_role", "update_role", "delete_role",
                             "create_mp", "delete_mp", "add_member", "remove_member", "remove_member", "create_team", "create_org",
-                            "update_org", "create_token", "delete_token"] + (["delete_org"] * 3 if (allow_bad or mode == "cluster") else []))
+                            "update_org", "create_token", "delete_token", "delete_org", "delete_org"] + (["realign_org"] * 2 if mode == "cluster" else []))
             if k == "update_team":
                 ops.append(mut(k, id=tr.pick(rng, "team"), en=rng.random() < 0.5))
             elif k == "delete_team":
@@ -383,6 +394,12 @@ def gen_sequence(rng, mode, enabled, ttl, allow_bad):
                 o = tr.pick(rng, "org")
                 ops.append(mut(k, id=o))
                 tr.live["org"].discard(o)
+            elif k == "realign_org":
+                o = tr.pick(rng, "org")
+                ops.append(mut(k, id=o))
+                if o in tr.live["org"]:
+                    tr.live["org"].discard(o)
+                    tr.new("org")
             elif k == "create_token":
                 ops.append(mut(k))
                 t = tr.new("tok")
@@ -525,9 +542,30 @@ def role_move_cases():
     return out
 
 
+def realign_cases(rng, n):
+    """cluster-apply mode: an organization with team, role and membership exists locally; a
+    decision is cached; then a CreateOrganization for the SAME NAME under another id is applied
+    (upgrade seed): the local row is deleted (cascade) and re-inserted"""
+    out = []
+    for i in range(n):
+        ops = [mut("create_org"), mut("create_org"), mut("create_team", a=1), mut("create_team", a=2),
+               mut("create_role", a=1, pat=rng.choice(["*", "prod*"]), perms=[2]), mut("create_role", a=2, pat="*", perms=[3]),
+               mut("create_token"), mut("create_token"), mut("add_member", a=1, b=1)]
+        if rng.random() < 0.5:
+            ops.append(mut("add_member", a=2, b=2))
+        ti, tj = ti_of(1, []), ti_of(2, rng.choice([[], [2]]))
+        ops += [chk(ti, "prod", "", 2), chk(tj, "prod", "", 3), chk(ti, "staging", "", 2)]
+        victim = rng.choice([1, 1, 2, 3])
+        ops += [mut("realign_org", id=victim), chk(ti, "prod", "", 2), chk(tj, "prod", "", 3),
+                {"op": "batch", "reqs": [{"ti": ti, "db": "staging", "meas": "", "perm": 2}, {"ti": tj, "db": "prod", "meas": "", "perm": 3}]},
+                mut("create_team", a=3), mut("create_team", a=victim), mut("realign_org", id=3), chk(ti, "prod", "", 2)]
+        out.append({"fam": "O:realign:cluster", "mode": "cluster", "enabled": True, "ttl": 30 * SEC, "t0": T0, "ops": ops})
+    return out
+
+
 def gen_cases(rng, tier):
     n = 110 if tier == "quick" else 1500
-    cases = witness_cases() + pattern_grid() + role_move_cases() + janitor_cases(rng, 40 if tier == "quick" else 400) + \
+    cases = witness_cases() + pattern_grid() + role_move_cases() + realign_cases(rng, 16 if tier == "quick" else 200) + janitor_cases(rng, 40 if tier == "quick" else 400) + \
         eviction_cases(rng, 40 if tier == "quick" else 400)
     for i in range(n):
         for mode in ("direct", "cluster"):
@@ -603,6 +641,8 @@ def op_to_coq(o, nm):
         m = "UpdateOrg %s %s" % (i, cbool(o["en"]))
     elif kind == "delete_org":
         m = "DeleteOrg %s" % i
+    elif kind == "realign_org":
+        m = "RealignOrg %s" % i
     elif kind == "create_team":
         m = "CreateTeam %s" % a
     elif kind == "update_team":
@@ -809,7 +849,7 @@ def run(res, tier, seed):
 
     known = {e["signature"]: e for e in vlib.known_for("C20")}
     SIG_ORG, SIG_KEY = "direct-delete-organization-no-invalidation", "perm-cache-key-ignores-token-permissions"
-    NEED = {k: "all" for k in ("KDeleteOrg", "KUpdateTeam", "KDeleteTeam", "KCreateRole", "KUpdateRole", "KDeleteRole", "KCreateMP", "KDeleteMP")}
+    NEED = {k: "all" for k in ("KDeleteOrg", "KRealignOrg", "KUpdateTeam", "KDeleteTeam", "KCreateRole", "KUpdateRole", "KDeleteRole", "KCreateMP", "KDeleteMP")}
     NEED.update({"KAddMember": "token", "KRemoveMember": "token"})      # Arc.Rbac.Model.need_of
 
     def missing(tbl):
